@@ -646,6 +646,29 @@ func checkC10(c *Check, p *Program) {
 			}
 		}
 		c.Floor("C10.K7", "closed-channel exits of the sender", nClosedRet, 1)
+		// after Close the socket is closed and its Send fails: that error is the only thing that stops a Send on a
+		// TCP tunnel (no acknowledgement to wait for) from reporting success, so every exit that may report success
+		// lies behind "the transmission returned no error"
+		sendCalls := map[ssa.Value]bool{}
+		for _, s := range ix.sockSends {
+			if s.Fn == sender && s.payloadIs("TunnelReq") {
+				if v, ok := s.Call.(ssa.Value); ok {
+					sendCalls[v] = true
+				}
+			}
+		}
+		nSucc := 0
+		for _, r := range returnsOf(sender) {
+			if len(r.Results) == 0 || !p.returnMayBeNil(r, 0) {
+				continue
+			}
+			nSucc++
+			behind := anyFact(factsAt(r.Block()), func(f Cmp) bool {
+				return f.Op == token.EQL && (sendCalls[f.X] && isNilConst(f.Y) || sendCalls[f.Y] && isNilConst(f.X))
+			})
+			c.Decide(behind, "C10.K7", FuncName(sender)+" success only after a transmission that succeeded", p.InstrPos(r), "the exit lies behind Socket.Send(...) == nil", "Send can report success without having looked at the error of its transmission: after Close (or a socket failure) the frame goes nowhere and the caller is told it was sent")
+		}
+		c.Floor("C10.K7", "exits of the sender that may report success", nSucc, 1)
 	}
 
 	// ---- K8 races
